@@ -178,7 +178,18 @@ def run_case(case, obs):
         A = S.build(case['angle'])
         th = float(A.to_value(u.rad))
         pivot = PixCoord(*pv)
-        rr = region.rotate(pivot, A)
+        # the documented signature is rotate(center, angle): positional, by keyword, or mixed
+        form = case['rs'] % 4
+        if form == 0:
+            rr = region.rotate(center=pivot, angle=A)
+            obs.count('rotate-called-with-keywords')
+        elif form == 1:
+            rr = region.rotate(angle=A, center=pivot)
+            obs.count('rotate-called-with-keywords')
+        elif form == 2:
+            rr = region.rotate(pivot, angle=A)
+        else:
+            rr = region.rotate(pivot, A)
         obs.check(type(rr) is type(region), 'rotate-class-changed', f'{type(region).__name__}.rotate gave {type(rr).__name__}', 'rot-class-meta')
         obs.check(dict(rr.meta) == dict(region.meta) and dict(rr.visual) == dict(region.visual) and type(rr.meta) is type(region.meta),
                   'rotate-meta-changed', f'rotate changed meta/visual: {dict(rr.meta)} vs {dict(region.meta)}', 'rot-class-meta')
